@@ -472,6 +472,10 @@ class _Eval:
             if rv.get("mut") and not p[1]:
                 # &mut local: remember which local is borrowed
                 return ("MR", p[0])
+            if rv.get("mut") and p[1] == ["*"]:
+                cur = env.get(p[0])
+                if cur is not None and cur[0] == "MR":
+                    return cur           # reborrow of a &mut local
             return self.read_place(p, env, mem)
         if r == "cast":
             a = self.operand(rv["a"], env, mem)
